@@ -1051,8 +1051,13 @@ pub fn cmd_cost(args: &[String]) {
             let mut best = u128::MAX;
             let mut status = String::new();
             let mut counters = String::new();
+            println!("begin {} size={}", name, buf.len());
             for _ in 0..reps {
                 crate::counters_reset();
+                // watchdog: a parse that does not return within 60 s kills the process (SIGALRM)
+                extern "C" { fn alarm(seconds: u32) -> u32; }
+                // SAFETY: plain libc call
+                unsafe { alarm(60) };
                 let t0 = Instant::now();
                 status = match kind {
                     "req" => {
@@ -1066,6 +1071,8 @@ pub fn cmd_cost(args: &[String]) {
                     _ => format!("{:?}", httparse::parse_chunk_size(&buf).map(|s| s.is_complete())),
                 };
                 let dt = t0.elapsed().as_nanos();
+                // SAFETY: plain libc call
+                unsafe { alarm(0) };
                 if dt < best { best = dt; }
                 counters = crate::counters_str();
                 // a run that already takes long is not repeated (super-linear code would make the whole
